@@ -114,7 +114,8 @@ Layout(i) == CASE i = 1 -> << <<500, 501, 502, 504>> >>
                [] i = 3 -> << <<300, 304, 308, 312>> >>
                [] i = 4 -> << <<600, 601, 603>>, <<400, 402, 404>> >>
                [] i = 5 -> << <<400, 410, 420, 430>>, <<405, 406, 407>> >>
-\* trapezoidal filters as <<central wavelength, window>>
+\* filters as <<central wavelength, window>>: trapezoidal ones in sets 1 - 3, tabulated transmission curves handed over with
+\* their wavelengths listed downwards in sets 4 and 5 (the range a filter covers does not depend on how its table is listed)
 FilterSet(i) == CASE i = 1 -> << <<500, 4>> >>
                   [] i = 2 -> << <<500, 4>>, <<656, 2>> >>
                   [] i = 3 -> << <<434, 8>>, <<656, 2>>, <<500, 4>> >>
